@@ -932,6 +932,12 @@ def run(chk, cases=None):
                         "spline only away from the ill-conditioned region, resampling is compared given torch's own grids; orders 2-3 are only "
                         "policed for shape, finiteness and range (a test, not a proof)",
                         "float32/float64 rounding of the draw arithmetic is modelled (round to nearest even, no overflow/subnormals)"]
+    chk.extra["trusted_base"] = [
+        "oracles: torch.linalg.solve inside polyharmonic_spline (order 1: any exact solution is the piecewise-linear map, theorem "
+        "c08_order1_spline_is_piecewise_linear; its float32 result is only compared with a tolerance away from the ill-conditioned region K7; "
+        "orders 2-3 not modelled) and the float32 evaluation of grid_sample (modelled by its exact-arithmetic formula, tolerance 2e-3)",
+        "draw theorems over Q are about `draw exact`; the float32 mask theorems are about `draw ieee`, the function compared bit for bit with torch "
+        "(no overflow/subnormals modelled; lengths and sizes < 2^24)"]
     explicit = cases is not None
     cases = cases if explicit else gen_cases(chk)
     recs = []      # (case index, tag, clause, info)
